@@ -118,8 +118,10 @@ Theorem T19_56_identifier_bijection :
 Proof. exact align_alpha. Qed.
 Print Assumptions T19_56_identifier_bijection.
 
+(* preserved names and names that are also builtins (a read before the definition means the builtin)
+   are never renamed *)
 Theorem T19_6_preserved_names_untouched :
-  forall pres m n old s, In (n, old, s) (align pres m) -> ~ In old pres /\ old <> s.
+  forall pres m n old s, In (n, old, s) (align pres m) -> ~ In old pres /\ ~ In old BUILTINS /\ old <> s.
 Proof. exact align_respects_preserve. Qed.
 Print Assumptions T19_6_preserved_names_untouched.
 
